@@ -121,7 +121,7 @@ def _register_exceptions() -> dict[str, dict[str, Any]]:
         return UnicodeDecodeError("utf-8", b"\xff", 0, 1, msg or "reason")
 
     def exc_group(msg: str) -> BaseException:
-        return ExceptionGroup(msg or "eg", [ValueError("inner")])
+        return ExceptionGroup(msg or "eg", [ValueError("inner")])  # noqa: F821  (Python >= 3.11)
 
     table: dict[str, tuple[Any, str]] = {
         # name -> (factory/class, group)
@@ -342,6 +342,29 @@ def run_shard(job: dict[str, Any]) -> dict[str, Any]:
                     )
         return out
 
+    def parse_tolerant(body: bytes) -> tuple[list[list[tuple[pa.RecordBatch, dict[str, bytes]]]], str | None]:
+        """Concatenated IPC streams; a trailing incomplete stream is reported, not fatal."""
+        from pyarrow import ipc
+
+        streams: list[list[tuple[pa.RecordBatch, dict[str, bytes]]]] = []
+        buf = pa.BufferReader(body)
+        while buf.tell() < len(body):
+            cur: list[tuple[pa.RecordBatch, dict[str, bytes]]] = []
+            try:
+                reader = ipc.open_stream(buf)
+                while True:
+                    try:
+                        b, md = reader.read_next_batch_with_custom_metadata()
+                    except StopIteration:
+                        break
+                    cur.append((b, {k.decode(): v for k, v in (md or {}).items()}))
+            except Exception as e:  # noqa: BLE001
+                if cur:
+                    streams.append(cur)
+                return streams, type(e).__name__
+            streams.append(cur)
+        return streams, None
+
     def drive(proxy: Any, m: dict[str, Any]) -> tuple[BaseException | None, int]:
         """Run the call to its end; return (exception raised by the client API, batches received)."""
         n = 0
@@ -500,6 +523,12 @@ def run_shard(job: dict[str, Any]) -> dict[str, Any]:
                     server.serve(srv_t)
                 except Exception as e:  # noqa: BLE001
                     self.box["died"] = repr(e)
+                    # a worker whose serve loop dies exits and its end of the pipe/socket closes: emulate that,
+                    # otherwise the client would wait forever on a peer that no longer exists
+                    try:
+                        self.st.close()
+                    except Exception:  # noqa: BLE001
+                        pass
 
             self.th = threading.Thread(target=serve, daemon=True)
             self.th.start()
@@ -545,14 +574,19 @@ def run_shard(job: dict[str, Any]) -> dict[str, Any]:
                         conn = conns[tr] = Conn(server, proto, tr)
                     del conn.sink[:]
                     cexc, _n = drive(conn.proxy, m)
-                    wire = None
-                    try:
-                        wire = exception_batches(httpdrv.parse_ipc_multi(bytes(conn.sink)))
-                    except Exception as e:  # noqa: BLE001
-                        chk.skip(f"tee_unparseable:{type(e).__name__}")
+                    streams, trailing = parse_tolerant(bytes(conn.sink))
+                    wire = exception_batches(streams)
+                    if trailing is not None:
+                        if streams:
+                            # bytes of a *later* answer read ahead by the buffered reader (after a header-less init
+                            # error the server answers the client's tick stream as if it were a request: C04's subject)
+                            chk.hit("tee_trailing_partial_ignored")
+                        else:
+                            wire = None
+                            chk.skip(f"tee_unparseable:{trailing}")
                     # Is the connection still usable?  (Not this property's subject - C04 - but a
                     # desynchronised connection must not be blamed on the next case.)
-                    reusable = m["kind"] == "unary" or not site.startswith("init")
+                    reusable = (m["kind"] == "unary" or not site.startswith("init")) and mk != "surrogate"
                     if cexc is not None and not isinstance(cexc, RpcError):
                         conn.th.join(timeout=2.0)  # give a dying serve thread time to finish dying
                     if not conn.th.is_alive():
